@@ -99,3 +99,55 @@ CHECKS["C11"] = dict(
     jobs=[dict(name="c11x", src=WALK, build="gasan", mode="c11x", cases=(3290, 28506), opt=("5", "6"), require=["product_states", "raw_spans_checked", "to_writer_checked", "raw_on_scalar"]),
           dict(name="c11r", src=WALK, build="gasan", mode="c11r", cases=(200000, 5000000), require=["calls", "raw_spans_checked", "to_writer_checked"])],
 )
+
+CHECKS["C02"] = dict(
+    level_text="Differential monitor: the real init+verify is executed on every token sequence of <= L tokens over a 37-token alphabet holding every token kind, width boundary, "
+               "non-minimal/negative/overlong length and illegal type byte (exhaustive; both root kinds, max_depth 1..3, plus wrapping variants), on nesting ladders around both limits, "
+               "on the 1791 corpus files at five depths, and on random valid documents, mutants and token soup; verdict and depth error code are compared with an independent recogniser.",
+    technique="differential runtime monitor: verify vs independent recogniser; exhaustive token-sequence enumeration + ladders + corpus + mutation, ASan+UBSan",
+    level_note=LVL_NOTE,
+    title="verify accepts exactly the well-formed Binson documents",
+    rule="c02e: one case = one sequence of <= L alphabet tokens wrapped as object and as array, checked at max_depth 1,2,3 (+5 wrapping variants for L<=3); exhaustive over all sequences. "
+         "c02r: one case = one document (ladder batch, corpus file x {1,2,3,10,255}, random valid tree at/below/above its needed depth, 1-3 mutations, token soup). "
+         "non-trivial = document of >= 3 bytes; distinct = hash(bytes, root kind, max_depth)",
+    exhaustive_note="all token sequences of <= L body tokens over the alphabet (L=4 quick, L=5 thorough) x {object,array} root x max_depth {1,2,3}",
+    assumptions=["vrecognise (harness/vh.c) is the reading of the specification: root counts as level 1 for either root kind, array nesting counted per object level, <= 255",
+                 "UTF-8 validity of strings is not part of the property"],
+    jobs=[dict(name="c02e", src=["w_verify.c", "vh.c"], build="gasan", mode="c02e", cases=(1926221, 71270178), opt=("4", "5"), require=["verify_accepted", "verify_rejected", "depth_first_obstacle"]),
+          dict(name="c02r", src=["w_verify.c", "vh.c"], build="gasan", mode="c02r", cases=(400000, 8000000), require=["accepted", "rejected", "corpus_runs", "ladder_batches", "depth_first_obstacle"])],
+)
+ENGINE_NOTES["w_verify.c"] = "verify vs independent recogniser: exhaustive token enumeration, nesting ladders, corpus, mutants (gcc ASan+UBSan)"
+
+API = ["w_api.c", "vh.c"]
+CHECKS["C01"] = dict(
+    level_text="Hostile workload under AddressSanitizer+UBSan (gcc; thorough also clang and valgrind memcheck): arbitrary bytes (valid, mutated, token soup, truncations, lengths 0..3 up to 64 KiB+) in an "
+               "exact-size heap block, parser struct and a state array of exactly max_depth entries pre-filled with adversarial garbage, init called whatever it returns, then 10-60 calls drawn from the "
+               "whole public parser API incl. re-init on other/truncated buffers, to_string into exact-size/NULL destinations, lookups with exact-size names. Monitors: sanitizer runtime, bounds of every "
+               "returned span, byte-compare of the input. Exploration: held on the sequences executed; red-zone tools do not see non-adjacent overflows that land in other live heap blocks.",
+    technique="sanitizer monitoring (ASan+UBSan, memcheck) of hostile random API sequences on exact-size heap blocks + returned-span range monitor + input immutability monitor",
+    level_note=LVL_NOTE,
+    title="Parser never touches memory outside the buffer and its own state",
+    rule="one case = (bytes, root kind, max_depth 1..255, garbage fill of struct+state, 10-60 API calls); lookups only while the harness's own enter/leave record and the parser's public state both say 'inside an object'. "
+         "non-trivial = input of >= 2 bytes; distinct = hash(bytes, call trace with results, max_depth)",
+    assumptions=["valid pointers only: NULL is passed only where the header defines it (to_string text buffer)", "field lookups only while positioned inside an object, as documented"],
+    jobs=[dict(name="c01", src=API, build="gasan", mode="c01", cases=(1500000, 20000000), require=["api_calls", "call_leave_object", "call_field_with_length", "call_to_string", "call_get_raw"]),
+          dict(name="c01clang", src=API, build="casan", mode="c01", cases=(0, 5000000), thorough_only=True),
+          dict(name="c01vg", src=API, build="plainO1g", mode="c01", cases=(0, 40000), thorough_only=True, wrap="valgrind -q --error-exitcode=99 --undef-value-errors=no", crash_is_violation=False, timeout=7200)],
+)
+ENGINE_NOTES["w_api.c"] = "hostile random API sequences over arbitrary bytes; memory monitors (C01) or token-callback work counter (C16)"
+BUILDS["plainO1g"] = dict(cc="gcc", cxx="g++", flags="-O1 -g")
+
+CHECKS["C16"] = dict(
+    level_text="Bounded-work restatement of termination, monitored at run time: the public per-token callback counts tokens per API call; every call must satisfy tokens <= bytes advanced + 3, "
+               "a tripwire inside the callback aborts any call exceeding 2*size+64 tokens (live-lock), the cursor never moves backwards, verify processes <= size+2 tokens; a wall-clock watchdog "
+               "(re-run once alone before it counts) covers loops that never reach the callback. No finite run decides 'never loops forever'; this refutes, it does not prove.",
+    technique="runtime work monitor on the public token callback (per-call token bound, live-lock tripwire, cursor monotonicity) + watchdog, over hostile API sequences and work-adversarial inputs",
+    level_note=LVL_NOTE + " Termination itself is not decidable by monitoring; claimed as bounded work on the executions driven.",
+    title="Every call terminates and work is linear in the bytes it moves over",
+    rule="one case = hostile (bytes, configuration, 10-60 API calls) as C01, plus work-adversarial inputs (64 KiB of nested arrays / empty-named objects / 1-byte tokens / thousands of fields) with up to 220 calls; "
+         "token callbacks counted per call. non-trivial = input of >= 2 bytes; distinct = hash(bytes, call trace, max_depth)",
+    assumptions=["every continuing iteration of the parser's advance loop passes through the token callback (true of the current source; a loop that does not is left to the watchdog)",
+                 "writer calls contain no input-dependent loop except the <= 8 byte integer packing and memmove"],
+    jobs=[dict(name="c16", src=API, build="gasan", mode="c16", cases=(1500000, 20000000), require=["calls_measured", "callbacks", "verify_measured"]),
+          dict(name="c16O2", src=API, build="plainO2", mode="c16", cases=(1500000, 20000000), require=["calls_measured"])],
+)
